@@ -373,6 +373,20 @@ func runCheck(prop, tier string) int {
 		"runs":                          runsEv,
 		"explanation":                   "explicit-state BFS; every transition executes the real handler / EndBlocker on real SDK keepers; see DESIGN.md",
 	}
+	if prop == "C20" {
+		cov["map_order_enumeration"] = mapOrderEnabled
+		if rp := os.Getenv("VERIF_MAPGEN_REPORT"); rp != "" {
+			if b, err := ioutil.ReadFile(rp); err == nil {
+				var rep interface{}
+				if json.Unmarshal(b, &rep) == nil {
+					cov["map_range_sites"] = rep
+				}
+			}
+		}
+		if why := os.Getenv("VERIF_MAPGEN_FAILED"); why != "" {
+			cov["map_order_enumeration_unavailable"] = why
+		}
+	}
 	if totStates == 0 {
 		delete(cov, "states")
 		delete(cov, "transitions")
@@ -532,6 +546,14 @@ func replayOnce(rs *RunSpec, trace []string) (sigs []string, log []string, err e
 		}
 	}
 	for i, name := range trace {
+		if name == "<import-orders>" {
+			fresh := e.rig.Genesis(e.Sc.Params, e.Sc.Funds, e.Sc.Extra)
+			for _, vi := range mapOrderGenesis(e.rig, e.Sc, s, fresh, &mapOrderStats{Sites: map[string]int64{}}) {
+				sigs = append(sigs, vi.Sig)
+				log = append(log, "    !! "+vi.Sig+" :: "+vi.Detail)
+			}
+			break
+		}
 		if name == "<query>" {
 			vs, _ := queryState(e.rig, e.Sc, s)
 			for _, vi := range vs {
@@ -567,6 +589,12 @@ func replayOnce(rs *RunSpec, trace []string) (sigs []string, log []string, err e
 				sg := viol("C20", "deterministic-replay", act.Kind, "two-keeper-instances-diverge", "").Sig
 				sigs = append(sigs, sg)
 				log = append(log, "    !! "+sg)
+			}
+		}
+		if e.DetCheck && mapOrderEnabled {
+			for _, vi := range mapOrderCheck(e.rig, e.Sc, s, *act, post, res, &mapOrderStats{Sites: map[string]int64{}}) {
+				sigs = append(sigs, vi.Sig)
+				log = append(log, "    !! "+vi.Sig+" :: "+vi.Detail)
 			}
 		}
 		pv := e.rig.Decode(post)
